@@ -51,7 +51,7 @@ def run_backends(case):
 
     def p_target(solver, goals, sc):
         def f(r):
-            ev = {"e": "ret", "solver": solver, "mode": "target", "src": src, "goals": goals, "status": r.status.name, "max_cost": -1,
+            ev = {"e": "ret", "solver": solver, "mode": "target", "src": src, "goals": goals, "status": r.status.name, "max_cost": -1, "max_iter": -1,
                   "has_path": r.solution is not None, "path": [int(x) for x in r.solution] if r.solution is not None else [], "obj": -1, "exact": True}
             if r.solution is not None:
                 ev["obj"], ev["exact"] = _proj(float(r.objective), sc)
